@@ -3168,7 +3168,26 @@ fn gen_chat_text(rng: &mut Rng, roles: &[String]) -> String {
             8 | 9 => format!(" [ {} , {} , {} ] ", q(&text), q(role), partial),
             10 if !partial => format!("{{\"te\\u0078t\": {}, \"role\": {}}}", q(&text), q(role)),
             10 | 11 | 12 | 13 => format!("{{\"role\": {}, \"text\": {}, \"partial\": {}}}", py_string(role), py_string(&text), partial),
-            14 => format!("{{\"partial\": {}, \"role\": {}, \"ignored\": {{\"role\": 1, \"a\": [true, false, 1.5e3, \"\\n\"]}}, \"text\": {}}}", partial, q(role), q(&text)),
+            14 => {
+                // an IGNORED member: serde_json skips it with `ignore_value`, whose grammar has no f64 range check, no
+                // surrogate check of \u escapes and no recursion limit (all three are refused by the Value grammar); some
+                // values it refuses as well
+                let deep = format!("{}1{}", "[".repeat(130), "]".repeat(130));
+                let ig: &str = match rng.below(12) {
+                    0 => "1e999",
+                    1 => "\"\\ud800\"",
+                    2 => deep.as_str(),
+                    3 => "-0.0e-5",
+                    4 => "{\"text\": \"\\udc00x\", \"n\": -1E+400}",
+                    5 => "01",
+                    6 => "\"\\x\"",
+                    7 => "[1,]",
+                    8 => "\"a\tb\"",
+                    9 => "{\"a\" 1}",
+                    _ => "{\"role\": 1, \"a\": [true, false, 1.5e3, \"\\n\"]}",
+                };
+                format!("{{\"partial\": {}, \"role\": {}, \"ignored\": {}, \"text\": {}}}", partial, q(role), ig, q(&text))
+            }
             _ => rng
                 .pick(&[
                     "{\"text\": \"a\"}",
